@@ -9,7 +9,7 @@ from gen import exprgen
 from lib import common, play, stories
 
 LEVEL = "proof"
-THEOREM_MODULES = ["Proofs.C07"]
+THEOREM_MODULES = ["Proofs.C07", "Proofs.Tables"]
 REQUIRED_THEOREMS = [
     "Ink.C07.int_add", "Ink.C07.int_sub", "Ink.C07.int_mul", "Ink.C07.int_div", "Ink.C07.int_mod",
     "Ink.C07.int_div_mod_law", "Ink.C07.int_compare", "Ink.C07.int_min_max", "Ink.C07.int_float_coercion",
@@ -20,6 +20,8 @@ REQUIRED_THEOREMS = [
     "Ink.Expr.eval_order_independent", "Ink.Native.call_equiv", "Ink.union_perm", "Ink.ordered_perm",
     "Ink.maxItem_perm", "Ink.increment_perm",
 ]
+from lib.tables_thms import TABLE_THEOREMS  # noqa: E402
+REQUIRED_THEOREMS = REQUIRED_THEOREMS + TABLE_THEOREMS
 RULE = ("a case = one expression tree (typed random trees up to depth 4 over int / exactly representable float / "
         "bool / string literals and variables and over list values from four LIST declarations with equal values "
         "across lists, empty lists with and without known origins; plus every unary and binary operator over a "
